@@ -42,6 +42,7 @@ fn shape(g: &G) -> String {
         G::Call(..) => "call".into(),
         G::List(_) => "list".into(),
         G::Map(_) => "map".into(),
+        G::Struct(..) => "struct".into(),
     }
 }
 
@@ -84,6 +85,26 @@ pub fn run(run: &mut Run) {
             let mut c = 0;
             g.number_leaves("a", &mut c);
             check_tree(run, &g, "tree");
+        }
+    }
+    // ---- the extended form set (2-argument calls, 3-element lists, 2-entry maps, message
+    //      construction): every tree with <= 2 (thorough 3) operators that uses an extended form
+    {
+        use crate::gast::ext_forms;
+        let maxn = run.pick(2usize, 3usize);
+        let spx = TreeSpace::new(ext_forms(), 2, maxn);
+        for n in 1..=maxn {
+            run.sub(&format!("trees-ext-{}op", n));
+            let cnt = spx.count(n) as u64;
+            for i in 0..cnt {
+                if !run.take() {
+                    continue;
+                }
+                let mut g = spx.unrank(n, i as u128);
+                let mut c = 0;
+                g.number_leaves("a", &mut c);
+                check_tree(run, &g, "tree-ext");
+            }
         }
     }
     // ---- thorough: all trees with exactly 4 operators over the infix/prefix/postfix forms
